@@ -613,6 +613,10 @@ func (g *G) genSIE(id string) *History {
 			rcc = append(rcc, "max-age="+strconv.FormatInt(L+N, 10))
 		case 3:
 			rcc = append(rcc, "max-stale=1")
+		case 4:
+			// a request max-age below the response's own lifetime: it forces validation, it does not
+			// move the stale-if-error window (which is measured from the response's lifetime)
+			rcc = append(rcc, "max-age="+pick(g, "1", "5", strconv.FormatInt(max(L/2, 1), 10), strconv.FormatInt(max(L-1, 1), 10)))
 		}
 		var rh Hdr
 		if len(rcc) > 0 {
